@@ -9,19 +9,32 @@ from anytree.exporter import DotExporter, UniqueDotExporter, MermaidExporter
 warnings.simplefilter("ignore")
 
 
-def build(tree, names, parent=None, index=None):
+class EqNode(Node):
+    """value equality/hash by a constant payload: distinct nodes compare equal"""
+
+    def __eq__(self, other):
+        return isinstance(other, EqNode)
+
+    def __ne__(self, other):
+        return not isinstance(other, EqNode)
+
+    def __hash__(self):
+        return 11
+
+
+def build(tree, names, parent=None, index=None, cls=Node):
     if index is None:
         index = {}
-    n = Node(names[tree[0]], parent=parent, label=tree[0])
+    n = cls(names[tree[0]], parent=parent, label=tree[0])
     index[tree[0]] = n
     for c in tree[1]:
-        build(c, names, n, index)
+        build(c, names, n, index, cls)
     return n, index
 
 
 def impl(case):
     names = {k: v for k, v in case["names"]}
-    root, index = build(case["tree"], names)
+    root, index = build(case["tree"], names, cls=EqNode if case.get("cls") == "eq" else Node)
     start = index[case["start"]]
     fo, st = set(case["filter_out"]), set(case["stop"])
     kw = {}
